@@ -105,8 +105,9 @@ def DEPTH(p, n):
     return dict(k='set_depth', p=p, n=n)
 
 
-def SETMAX(n):
-    return dict(k='set_max', n=n)
+def SETMAX(n, real=False):
+    """real: Scheduler::set_max_threads (stores the maximum, then wakes/spawns as many threads as it can); otherwise only the value is stored"""
+    return dict(k='set_max', n=n, then='real') if real else dict(k='set_max', n=n)
 
 
 def DESPAWN():
@@ -314,6 +315,11 @@ def max_families():
     # the maximum is lowered while the only pool thread is occupied and another queue waits in the schedule
     out.append(make('lower_busy_backlog_p1', 3, 1, 1, [D(1, block=1), D(2), BARRIER(), SETMAX(0), DESPAWN(), D(3), S(3)], [BARRIER(), FIRE(1)]))
     out.append(make('lower_busy_backlog_p2', 3, 2, 1, [D(1, block=1), D(2), D(3), BARRIER(), SETMAX(1), DESPAWN(), D(2), S(2)], [BARRIER(), FIRE(1), S(3)]))
+    # the real set_max_threads: stores the value and then wakes / spawns threads eagerly
+    out.append(make('setmax_real_raise_p0', 2, 0, 0, [D(1), D(2), SETMAX(2, real=True), S(1), S(2)], extra_pool=2, drivers=['dfs']))
+    out.append(make('setmax_real_raise_idle_p1', 1, 1, 0, [D(1), S(1), SETMAX(2, real=True), D(1), S(1)], extra_pool=1, drivers=['dfs']))
+    out.append(make('setmax_real_lower_p2', 2, 2, 0, [D(1), D(2), BARRIER(), SETMAX(1, real=True), DESPAWN(), BARRIER(), D(1), S(1)], [S(2), BARRIER(), BARRIER(), D(2)], extra_pool=1, drivers=['dfs']))
+    out.append(make('setmax_real_zero_p1', 2, 1, 0, [D(1), S(1), BARRIER(), SETMAX(0, real=True), DESPAWN(), D(2), S(2)], drivers=['dfs']))
     out.append(make('raise_max_p0', 2, 0, 0, [D(1), SETMAX(2), D(2), D(1)], [S(1), S(2)], extra_pool=2))
     return out
 
